@@ -458,6 +458,9 @@ class Real:
         except Exception as e:                       # e.g. nothing to pack / already packed to a later time
             ev['res'] = 'Other:' + type(e).__name__
         ev['packtid'] = self.labels[at].hex()
+        # the history as the storage's own iterator reports it after the pack (input for the oracle)
+        ev['hist'] = [(t.tid.hex(), 'p' if t.status == 'p' else '_',
+                       [(r.oid.hex(), self.toks.of(r.data)) for r in t]) for t in self.fs.iterator()]
         self.send_log(ev)
 
     def send_log(self, ev):
@@ -655,18 +658,18 @@ class Oracle:
         return outcome, W, DT, classes, nontrivial
 
     def load_before(self, oid, b):
-        """(token, serial, end) | 'None' | 'KeyError' from the history"""
+        """((token, serial, end) | 'None' | 'KeyError', tid of the revision that decides) from the history"""
         known = any(oid in t['writes'] for t in self.txns)
         if not known:
-            return 'KeyError'
+            return 'KeyError', ''
         end = '-'
         for t in reversed(self.txns):
             if oid in t['writes']:
                 if t['tid'] < b:
                     v = t['writes'][oid]
-                    return 'KeyError' if v is None else (v, t['tid'], end)
+                    return ('KeyError' if v is None else (v, t['tid'], end)), t['tid']
                 end = t['tid']
-        return 'None'
+        return 'None', ''
 
 
 def oracle_check(case, events):
@@ -780,15 +783,21 @@ def oracle_check(case, events):
                                 % (f, ev['ids']))
         elif kind == 'pack':
             if ev['res'] == 'ok':
-                # which transactions the pack marked 'p' (or dropped) is an input here, not under test:
-                # a pack that frees nothing leaves the file - and every status - as it was
-                status = {tid: st for tid, st, _ in ev['log']}
-                changed = False
-                for t in orc.txns:
-                    p = status.get(t['tid'], 'p') == 'p'
-                    changed = changed or p != t['packed']
-                    t['packed'] = p
-                if changed:
+                # What the pack left is an input here, not under test (C07): the oracle continues from
+                # the history the storage's iterator now reports - which transactions are 'p', and which
+                # revisions still exist.  (A pack that frees nothing leaves everything as it was.  An
+                # un-creation that was current at the pack time disappears with the pack, so relative
+                # to the packed history "the state immediately before" a later re-creating transaction
+                # is the older data, no longer absence.)
+                was_undo = {t['tid']: t['undo'] for t in orc.txns}
+                old = [(t['tid'], t['packed'], t['writes']) for t in orc.txns]
+                orc.txns = []
+                for tid, st, recs in ev['hist']:
+                    w = {}
+                    for o, tk in recs:
+                        w[o] = tk
+                    orc.txns.append(dict(tid=tid, packed=st == 'p', writes=w, undo=was_undo.get(tid, False)))
+                if old != [(t['tid'], t['packed'], t['writes']) for t in orc.txns]:
                     orc.packed_upto = max(orc.packed_upto, ev['packtid'])
             else:
                 cnt('pack:' + ev['res'])
@@ -802,10 +811,11 @@ def oracle_check(case, events):
                 oid, b = key.split(':')
                 if oid not in known or b <= orc.packed_upto:
                     continue
-                exp = orc.load_before(oid, b)
+                exp, rev_tid = orc.load_before(oid, b)
+                if orc.packed_upto and rev_tid <= orc.packed_upto:
+                    continue        # decided by a revision at or below a pack time: the packer's business (C07)
                 got = tuple(v) if isinstance(v, list) else v
-                if got != exp and not (orc.packed_upto and got in ('None', 'KeyError')
-                                       and exp in ('None', 'KeyError')):
+                if got != exp:
                     bad('C06:load-differs-from-history', 'loadBefore(%s, %s) = %s, the history says %s'
                         % (oid, b, got, exp))
         if case['mode'] == 'db' and 'conn2' in ev:
@@ -1014,7 +1024,7 @@ def main(argv=None):
         c = j['case']
         cases = [c['case'] if 'case' in c and 'mode' not in c else c]
     else:
-        cases = load_corpus() + gen_cases(ck.rng, 80 if not ck.thorough else 1500, ck.thorough)
+        cases = load_corpus() + gen_cases(ck.rng, 80 if not ck.thorough else 1000, ck.thorough)
     # 1. real code + direct oracle (worker processes; all randomness was drawn above)
     import multiprocessing
     nproc = max(1, min(16, (os.cpu_count() or 2) - 1, len(cases)))
@@ -1046,7 +1056,9 @@ def main(argv=None):
         ck.case(canonical(case), nontriv,
                 sample=dict(case=case, undo_outcomes=[(e['ids'], e['res']) for e in events
                                                       if e['kind'] == 'u']) if nontriv else None)
-        if problems:
+        if problems and len(ck.violations) + len(ck.known_hit) >= 4:
+            ck.count('violating-cases-not-shrunk')          # enough replayable witnesses; keep the run short
+        elif problems:
             sig = problems[0][0]
 
             def fails(sub_ops, sig=sig, mode=case['mode']):
